@@ -139,6 +139,23 @@ def run(tier, replay):
     # ---- 4. TLC validates every projected event
     files = [os.path.join(wd, "ev%d.ndjson" % i) for i in range(nsh)] + [os.path.join(wd, "ev_g.ndjson")]
     nevents = 0
+    # the Q value of the ledger is the one of the table extracted from the reference (DbdTable), not the port's own
+    qtab = {e["name"]: e for e in tab}
+    for tf in files:
+        if not os.path.exists(tf):
+            continue
+        out_l = []
+        for x in open(tf).read().splitlines():
+            if '"Begin"' in x:
+                h = json.loads(x)
+                iso = h["id"].split(".")[0]
+                if iso in qtab and h["cat"] == "dbd":
+                    e = qtab[iso]
+                    q = float(e["Q4"]) if (h["mode"] == 20 and "Q4" in e) else float(e["Q"])
+                    h["q"] = int(round(q * 1e8))
+                    x = json.dumps(h, separators=(",", ":"))
+            out_l.append(x)
+        open(tf, "w").write("\n".join(out_l) + "\n")
 
     def one(tf):
         found = []
